@@ -4,128 +4,241 @@ import (
 	"go/ast"
 	"go/token"
 	"sort"
-	"strings"
+	"strconv"
 )
 
-// C12: the order of the gate calls in the four proxies, the shape of the gate statements (top-level
-// `if <check> { …; return }`), the status constants, the rule-map tags, and the fail-closed calls of
-// ProcessAccessRules.
+// C12: the order of the gate calls in the four proxies and the gRPC interceptor, the shape of the gate
+// statements (`if <check> { …; return }`, possibly a link of an if / else-if chain whose earlier links all
+// return), the refusal statuses, the rule-map tags, the fail-closed error returns of ProcessAccessRules and the
+// statelessness of the auth schemes.
+//
+// The facts pin EVENTS, not spelling (see normalize.go): callee and selector *names* (never receiver or local
+// variable names), parameters by position, helpers by what they do; the walk follows calls into unexported
+// same-package helpers (WalkInlined), constants are inlined and switches are if-chains (UseNormalizedAST).
+// Unexported names are used only where route/verif_c12.go references them too (addTarget, denyByIP,
+// accessRules, ipAllowTag, ipDenyTag): renaming those breaks the harness build anyway.
 
+// markers by callee / selector name
 var c12Markers = map[string]string{
-	"p.Lookup":           "lookup",
-	"t.AccessDeniedHTTP": "access",
-	"t.AccessDeniedTCP":  "access",
-	"t.Authorized":       "auth",
-	// a redirect route is answered by fabio itself
-	"http.Redirect": "redirect",
+	"Lookup":           "lookup", // p.Lookup(...), route.GetTable().Lookup(...)
+	"AccessDeniedHTTP": "access",
+	"AccessDeniedTCP":  "access",
+	"AccessDeniedAddr": "access",
+	"Authorized":       "auth",
+	"Redirect":         "redirect", // http.Redirect: a redirect route is answered by fabio itself
 	// first contact with an upstream
-	"net.DialTimeout": "upstream",
-	"net.Dial":        "upstream",
-	"tls.Dial":        "upstream",
-	"h.ServeHTTP":     "upstream",
-	"newHTTPProxy":    "upstream",
-	"newWSHandler":    "upstream",
+	"DialTimeout":      "upstream",
+	"Dial":             "upstream", // net.Dial (also passed as a value), tls.Dial
+	"DialContext":      "upstream",
+	"ServeHTTP":        "upstream", // h.ServeHTTP(rw, r): reverse proxy / websocket handler
 	"WriteProxyHeader": "upstream",
-	"out.Write":       "upstream",
 }
 
-type c12Event struct {
-	pos  token.Pos
-	step string
-}
-
-// c12Order lists the marker references of a function body in source order, consecutive duplicates collapsed.
-func c12Order(x *X, fd *ast.FuncDecl) []string { return c12OrderWith(x, fd, c12Markers) }
-
-// the gRPC interceptor: lookup, the access check on the peer address, then the handler (which runs the
-// director and dials the upstream)
-var c12GRPCMarkers = map[string]string{
-	"g.lookup":                "lookup",
-	"target.AccessDeniedAddr": "access",
-	"target.Authorized":       "auth",
-	"handler":                 "upstream",
-}
-
-func c12OrderWith(x *X, fd *ast.FuncDecl, c12Markers map[string]string) []string {
-	var evs []c12Event
-	ast.Inspect(fd.Body, func(n ast.Node) bool {
+// c12Order lists the marker events of fd in visit order (helpers inlined), consecutive duplicates collapsed.
+// calledParam >= 0 additionally makes a call of the parameter with that index an "upstream" event (the gRPC
+// interceptor's handler).
+func c12Order(x *X, dir string, fd *ast.FuncDecl, calledParam int) []string {
+	param := ""
+	if calledParam >= 0 {
+		_, params, _ := x.LocalNames(fd)
+		if calledParam < len(params) {
+			param = params[calledParam]
+		} else {
+			x.fail("%s.%s has no parameter %d", dir, fd.Name.Name, calledParam)
+		}
+	}
+	var out []string
+	add := func(s string) {
+		if len(out) == 0 || out[len(out)-1] != s {
+			out = append(out, s)
+		}
+	}
+	x.WalkInlined(dir, fd, func(n ast.Node) bool {
 		switch v := n.(type) {
 		case *ast.SelectorExpr:
-			if s, ok := c12Markers[x.src(v)]; ok {
-				evs = append(evs, c12Event{v.Pos(), s})
-				return false
+			if s, ok := c12Markers[v.Sel.Name]; ok {
+				add(s)
 			}
-		case *ast.Ident:
-			if s, ok := c12Markers[v.Name]; ok {
-				evs = append(evs, c12Event{v.Pos(), s})
+		case *ast.CallExpr:
+			if id, ok := v.Fun.(*ast.Ident); ok {
+				if param != "" && id.Name == param {
+					add("upstream")
+				} else if s, ok := c12Markers[id.Name]; ok {
+					add(s)
+				}
 			}
 		}
 		return true
 	})
-	sort.Slice(evs, func(i, j int) bool { return evs[i].pos < evs[j].pos })
-	var out []string
-	for _, e := range evs {
-		if len(out) == 0 || out[len(out)-1] != e.step {
-			out = append(out, e.step)
-		}
-	}
 	return out
 }
 
-// c12Gate finds the top-level statement `if [!]<recv>.<method>(…) { …; return … }` of the body and returns
-// (found and well-shaped, the source of the status argument of an http.Error call inside it or "").
+func c12Callee(c *ast.CallExpr) string {
+	switch f := c.Fun.(type) {
+	case *ast.Ident:
+		return f.Name
+	case *ast.SelectorExpr:
+		return f.Sel.Name
+	}
+	return ""
+}
+
+func c12EndsInReturn(b *ast.BlockStmt) bool {
+	if b == nil || len(b.List) == 0 {
+		return false
+	}
+	_, ok := b.List[len(b.List)-1].(*ast.ReturnStmt)
+	return ok
+}
+
+// c12Status renders a status argument independent of its spelling: net/http status names and integer
+// literals become the number, a selector becomes its selected name (codes.PermissionDenied -> PermissionDenied).
+func c12Status(x *X, e ast.Expr) string {
+	switch v := e.(type) {
+	case *ast.BasicLit:
+		if v.Kind == token.INT {
+			if n, err := strconv.ParseInt(v.Value, 0, 64); err == nil {
+				return strconv.FormatInt(n, 10)
+			}
+		}
+	case *ast.SelectorExpr:
+		switch v.Sel.Name {
+		case "StatusForbidden":
+			return "403"
+		case "StatusUnauthorized":
+			return "401"
+		}
+		return v.Sel.Name
+	}
+	return x.src(e)
+}
+
+// c12Gate finds, among the top-level statements of fd's body, the link `if [!]<…>.<method>(…) { …; return … }`
+// of an if / else-if chain. The link is well shaped when its condition is exactly the (negated) call, it has no
+// init statement, its body ends in a return and every earlier link of the same chain ends in a return too (so
+// being in an else-if position does not let a request skip the gate). It returns (well shaped, status): the
+// status argument of the http.Error / status.Error call in the body, normalised by c12Status.
 func c12Gate(x *X, fd *ast.FuncDecl, method string, negated bool) (bool, string) {
 	for _, st := range fd.Body.List {
 		ifs, ok := st.(*ast.IfStmt)
-		if !ok {
-			continue
-		}
-		cond := ifs.Cond
-		neg := false
-		if u, ok := cond.(*ast.UnaryExpr); ok && u.Op == token.NOT {
-			cond, neg = u.X, true
-		}
-		call, ok := cond.(*ast.CallExpr)
-		if !ok || x.src(call.Fun) != method {
-			continue
-		}
-		if neg != negated || ifs.Init != nil || ifs.Else != nil || len(ifs.Body.List) == 0 {
-			return false, ""
-		}
-		if _, ok := ifs.Body.List[len(ifs.Body.List)-1].(*ast.ReturnStmt); !ok {
-			return false, ""
-		}
-		status := ""
-		for _, c := range x.calls(ifs.Body, "http.Error") {
-			if len(c.Args) == 3 {
-				status = x.src(c.Args[2])
+		prevReturn := true
+		for ok && ifs != nil {
+			cond := ifs.Cond
+			neg := false
+			for {
+				if p, isParen := cond.(*ast.ParenExpr); isParen {
+					cond = p.X
+					continue
+				}
+				if u, isNot := cond.(*ast.UnaryExpr); isNot && u.Op == token.NOT {
+					cond, neg = u.X, !neg
+					continue
+				}
+				break
 			}
-		}
-		for _, c := range x.calls(ifs.Body, "status.Error") {
-			if len(c.Args) == 2 {
-				status = x.src(c.Args[0])
+			if call, isCall := cond.(*ast.CallExpr); isCall && c12Callee(call) == method {
+				if neg != negated || ifs.Init != nil || !c12EndsInReturn(ifs.Body) || !prevReturn {
+					return false, ""
+				}
+				status := ""
+				ast.Inspect(ifs.Body, func(n ast.Node) bool {
+					if c, ok := n.(*ast.CallExpr); ok && c12Callee(c) == "Error" {
+						switch len(c.Args) {
+						case 3: // http.Error(w, msg, code)
+							status = c12Status(x, c.Args[2])
+						case 2: // status.Error(code, msg)
+							status = c12Status(x, c.Args[0])
+						}
+					}
+					return true
+				})
+				return true, status
 			}
+			prevReturn = prevReturn && c12EndsInReturn(ifs.Body)
+			next, isIf := ifs.Else.(*ast.IfStmt)
+			if !isIf {
+				break
+			}
+			ifs = next
 		}
-		return true, status
 	}
 	return false, ""
 }
 
-func c12List(vs []string) string {
-	qs := make([]string, len(vs))
-	for i, v := range vs {
-		qs[i] = leanStr(v)
+// c12DeferClose: a top-level `defer <first parameter>.Close()` placed before any return statement of the body.
+func c12DeferClose(x *X, fd *ast.FuncDecl) bool {
+	_, params, _ := x.LocalNames(fd)
+	if len(params) == 0 {
+		return false
 	}
-	return "[" + strings.Join(qs, ", ") + "]"
+	firstReturn := token.Pos(0)
+	ast.Inspect(fd.Body, func(n ast.Node) bool {
+		if _, isLit := n.(*ast.FuncLit); isLit {
+			return false
+		}
+		if r, ok := n.(*ast.ReturnStmt); ok && (firstReturn == 0 || r.Pos() < firstReturn) {
+			firstReturn = r.Pos()
+		}
+		return true
+	})
+	for _, st := range fd.Body.List {
+		d, ok := st.(*ast.DeferStmt)
+		if !ok {
+			continue
+		}
+		sel, ok := d.Call.Fun.(*ast.SelectorExpr)
+		if !ok || sel.Sel.Name != "Close" || len(d.Call.Args) != 0 {
+			continue
+		}
+		if id, ok := sel.X.(*ast.Ident); ok && id.Name == params[0] && (firstReturn == 0 || d.Pos() < firstReturn) {
+			return true
+		}
+	}
+	return false
+}
+
+// c12IsDenyAllAssign: `<recv>.accessRules = map[…]…{"allow:ip": {}}` (or nil value) — an allow list without blocks.
+func c12IsDenyAllAssign(x *X, st ast.Stmt, allowTag string) bool {
+	as, ok := st.(*ast.AssignStmt)
+	if !ok || as.Tok != token.ASSIGN || len(as.Lhs) != 1 || len(as.Rhs) != 1 {
+		return false
+	}
+	sel, ok := as.Lhs[0].(*ast.SelectorExpr)
+	if !ok || sel.Sel.Name != "accessRules" {
+		return false
+	}
+	cl, ok := as.Rhs[0].(*ast.CompositeLit)
+	if !ok || len(cl.Elts) != 1 {
+		return false
+	}
+	if _, isMap := cl.Type.(*ast.MapType); !isMap {
+		return false
+	}
+	kv, ok := cl.Elts[0].(*ast.KeyValueExpr)
+	if !ok {
+		return false
+	}
+	if k, ok := x.strLit(kv.Key); !ok || k != allowTag {
+		return false
+	}
+	switch v := kv.Value.(type) {
+	case *ast.CompositeLit:
+		return len(v.Elts) == 0
+	case *ast.Ident:
+		return v.Name == "nil"
+	}
+	return false
 }
 
 func init() {
 	register("C12", func(x *X) error {
+		x.UseNormalizedAST()
+
 		// --- HTTP
 		if fd := x.funcDecl("proxy", "HTTPProxy", "ServeHTTP"); fd != nil {
-			x.defStrList("httpOrder", c12Order(x, fd))
-			okA, stA := c12Gate(x, fd, "t.AccessDeniedHTTP", false)
-			okB, stB := c12Gate(x, fd, "t.Authorized", true)
+			x.defStrList("httpOrder", c12Order(x, "proxy", fd, -1))
+			okA, stA := c12Gate(x, fd, "AccessDeniedHTTP", false)
+			okB, stB := c12Gate(x, fd, "Authorized", true)
 			x.defBool("httpGatesReturn", okA && okB)
 			x.defStr("httpDeniedStatus", stA)
 			x.defStr("httpUnauthorizedStatus", stB)
@@ -136,99 +249,81 @@ func init() {
 			if fd == nil {
 				continue
 			}
-			x.defStrList(p[1]+"Order", c12Order(x, fd))
-			ok, _ := c12Gate(x, fd, "t.AccessDeniedTCP", false)
+			x.defStrList(p[1]+"Order", c12Order(x, "proxy/tcp", fd, -1))
+			ok, _ := c12Gate(x, fd, "AccessDeniedTCP", false)
 			x.defBool(p[1]+"GateReturns", ok)
-			// the connection is closed on every return: first statement is `defer in.Close()`
-			closes := false
-			if len(fd.Body.List) > 0 {
-				if d, ok := fd.Body.List[0].(*ast.DeferStmt); ok && x.src(d.Call) == "in.Close()" {
-					closes = true
-				}
-			}
-			x.defBool(p[1]+"DeferClose", closes)
+			x.defBool(p[1]+"DeferClose", c12DeferClose(x, fd))
 		}
-		// --- gRPC interceptor
+		// --- gRPC interceptor: lookup, access check on the peer address, then the handler (4th parameter), which
+		// runs the director and dials the upstream
 		if fd := x.funcDecl("proxy", "GrpcProxyInterceptor", "Stream"); fd != nil {
-			x.defStrList("grpcOrder", c12OrderWith(x, fd, c12GRPCMarkers))
-			ok, code := c12Gate(x, fd, "target.AccessDeniedAddr", false)
+			x.defStrList("grpcOrder", c12Order(x, "proxy", fd, 3))
+			ok, code := c12Gate(x, fd, "AccessDeniedAddr", false)
 			x.defBool("grpcGateReturns", ok)
 			x.defStr("grpcDeniedCode", code)
 		}
 		// AccessDeniedTCP decides through AccessDeniedAddr (one decision for TCP connections and gRPC peers)
 		if fd := x.funcDecl("route", "Target", "AccessDeniedTCP"); fd != nil {
-			x.defNat("tcpDelegatesToAddr", uint64(len(x.calls(fd.Body, "t.AccessDeniedAddr"))))
-		}
-		// --- the basic auth scheme holds no state besides the realm and the htpasswd file handle, and its
-		// Authorized only reads the request, sets the challenge header and asks the file
-		basicFields := []string{}
-		for _, f := range x.files("auth") {
-			for _, d := range f.Decls {
-				gd, ok := d.(*ast.GenDecl)
-				if !ok {
-					continue
-				}
-				for _, sp := range gd.Specs {
-					ts, ok := sp.(*ast.TypeSpec)
-					if !ok || ts.Name.Name != "basic" {
-						continue
-					}
-					st, ok := ts.Type.(*ast.StructType)
-					if !ok {
-						x.fail("auth.basic is not a struct")
-						continue
-					}
-					for _, fl := range st.Fields.List {
-						if len(fl.Names) == 0 {
-							basicFields = append(basicFields, "(embedded) "+x.src(fl.Type))
-						}
-						for _, n := range fl.Names {
-							basicFields = append(basicFields, n.Name+" "+x.src(fl.Type))
-						}
-					}
-				}
-			}
-		}
-		x.defStrList("basicFields", basicFields)
-		if fd := x.funcDecl("auth", "basic", "Authorized"); fd != nil {
-			var calls []string
-			writes := 0
-			ast.Inspect(fd.Body, func(n ast.Node) bool {
-				switch v := n.(type) {
-				case *ast.CallExpr:
-					calls = append(calls, x.src(v.Fun))
-				case *ast.AssignStmt:
-					for _, l := range v.Lhs {
-						if _, isIdent := l.(*ast.Ident); !isIdent {
-							writes++ // anything but a local variable
-						}
-					}
-				case *ast.IncDecStmt, *ast.GoStmt, *ast.SendStmt:
-					writes++
+			n := 0
+			x.WalkInlined("route", fd, func(nd ast.Node) bool {
+				if c, ok := nd.(*ast.CallExpr); ok && c12Callee(c) == "AccessDeniedAddr" {
+					n++
 				}
 				return true
 			})
-			x.defStrList("basicAuthorizedCalls", calls)
-			x.defNat("basicAuthorizedWrites", uint64(writes))
+			x.defBool("tcpDelegatesToAddr", n > 0)
 		}
-		// --- tags
+
+		// --- tags (the hook route/verif_c12.go references these constants by name)
+		allowTag := ""
 		for _, c := range []string{"ipAllowTag", "ipDenyTag"} {
 			if e := x.valueSpec("route", c); e != nil {
 				if s, ok := x.strLit(e); ok {
 					x.defStr(c, s)
+					if c == "ipAllowTag" {
+						allowTag = s
+					}
 				} else {
 					x.fail("route.%s is not a string literal", c)
 				}
 			}
 		}
+
 		// --- addTarget runs ProcessAccessRules on every target with options
 		if fd := x.funcDecl("route", "Route", "addTarget"); fd != nil {
-			x.defNat("addTargetProcessCalls", uint64(len(x.calls(fd.Body, "t.ProcessAccessRules"))))
+			n := 0
+			x.WalkInlined("route", fd, func(nd ast.Node) bool {
+				if c, ok := nd.(*ast.CallExpr); ok && c12Callee(c) == "ProcessAccessRules" {
+					n++
+				}
+				return true
+			})
+			x.defBool("addTargetProcessesRules", n > 0)
 		}
-		// --- ProcessAccessRules fails closed: every `return <non-nil>` is directly preceded by t.denyAll()
+
+		// --- ProcessAccessRules fails closed: every `return <non-nil>` is directly preceded by the installation of
+		// an allow list without blocks — either the assignment itself or a call of a helper of package route whose
+		// body is exactly that assignment (whatever the helper is called)
+		denyAllFuncs := map[string]bool{}
+		for _, f := range x.files("route") {
+			for _, d := range f.Decls {
+				fd, ok := d.(*ast.FuncDecl)
+				if !ok || fd.Body == nil || len(fd.Body.List) != 1 {
+					continue
+				}
+				if c12IsDenyAllAssign(x, fd.Body.List[0], allowTag) {
+					denyAllFuncs[fd.Name.Name] = true
+				}
+			}
+		}
 		if fd := x.funcDecl("route", "Target", "ProcessAccessRules"); fd != nil {
 			errReturns, guarded := 0, 0
+			// (only the returns of ProcessAccessRules itself: the item parser's error returns are guarded where
+			// ProcessAccessRules passes them on)
 			ast.Inspect(fd.Body, func(n ast.Node) bool {
+				if _, isLit := n.(*ast.FuncLit); isLit {
+					return false
+				}
 				b, ok := n.(*ast.BlockStmt)
 				if !ok {
 					return true
@@ -239,8 +334,14 @@ func init() {
 						continue
 					}
 					errReturns++
-					if i > 0 {
-						if es, ok := b.List[i-1].(*ast.ExprStmt); ok && x.src(es.X) == "t.denyAll()" {
+					if i == 0 {
+						continue
+					}
+					prev := b.List[i-1]
+					if c12IsDenyAllAssign(x, prev, allowTag) {
+						guarded++
+					} else if es, ok := prev.(*ast.ExprStmt); ok {
+						if c, ok := es.X.(*ast.CallExpr); ok && denyAllFuncs[c12Callee(c)] {
 							guarded++
 						}
 					}
@@ -250,16 +351,108 @@ func init() {
 			x.defNat("processErrorReturns", uint64(errReturns))
 			x.defNat("processErrorReturnsFailClosed", uint64(guarded))
 		}
-		// denyAll installs an allow list without blocks
-		denyAll := ""
-		for _, f := range x.files("route") {
+		x.defBool("denyAllInstallsEmptyAllowList", c12HasInlineDenyAll(x, allowTag))
+
+		// --- the auth schemes hold no mutable state: every type of package auth with an Authorized method is a
+		// struct whose field types are among {string, *htpasswd.File}; Authorized (helpers inlined) calls only
+		// BasicAuth / Header / Set / Match and stores into nothing but local variables
+		fieldTypes := map[string]bool{}
+		calls := map[string]bool{}
+		writes := 0
+		schemes := 0
+		for _, f := range x.files("auth") {
 			for _, d := range f.Decls {
-				if fd, ok := d.(*ast.FuncDecl); ok && fd.Name.Name == "denyAll" && fd.Recv != nil && fd.Body != nil {
-					denyAll = x.src(fd.Body)
+				fd, ok := d.(*ast.FuncDecl)
+				if !ok || fd.Name.Name != "Authorized" || fd.Recv == nil || fd.Body == nil || len(fd.Recv.List) != 1 {
+					continue
+				}
+				schemes++
+				rt := fd.Recv.List[0].Type
+				if st, ok := rt.(*ast.StarExpr); ok {
+					rt = st.X
+				}
+				tn, _ := rt.(*ast.Ident)
+				if tn == nil {
+					x.fail("auth: receiver of Authorized is not a named type")
+					continue
+				}
+				for _, ft := range c12StructFieldTypes(x, "auth", tn.Name) {
+					fieldTypes[ft] = true
+				}
+				x.WalkInlined("auth", fd, func(n ast.Node) bool {
+					switch v := n.(type) {
+					case *ast.CallExpr:
+						if nm := c12Callee(v); nm != "" {
+							calls[nm] = true
+						}
+					case *ast.AssignStmt:
+						for _, l := range v.Lhs {
+							if _, isIdent := l.(*ast.Ident); !isIdent {
+								writes++ // anything but a local variable
+							}
+						}
+					case *ast.IncDecStmt, *ast.GoStmt, *ast.SendStmt:
+						writes++
+					}
+					return true
+				})
+			}
+		}
+		x.defNat("authSchemeTypes", uint64(schemes))
+		x.defSortedStrList("authSchemeFieldTypes", c12Keys(fieldTypes))
+		x.defSortedStrList("authorizedCallees", c12Keys(calls))
+		x.defNat("authorizedWrites", uint64(writes))
+		return nil
+	})
+}
+
+func c12Keys(m map[string]bool) []string {
+	out := make([]string, 0, len(m))
+	for k := range m {
+		out = append(out, k)
+	}
+	sort.Strings(out)
+	return out
+}
+
+// c12HasInlineDenyAll: the deny-all assignment occurs somewhere in package route (helper or inline).
+func c12HasInlineDenyAll(x *X, allowTag string) bool {
+	found := false
+	for _, f := range x.files("route") {
+		ast.Inspect(f, func(n ast.Node) bool {
+			if st, ok := n.(ast.Stmt); ok && c12IsDenyAllAssign(x, st, allowTag) {
+				found = true
+			}
+			return !found
+		})
+	}
+	return found
+}
+
+// c12StructFieldTypes renders the field types of a struct type of the package (embedded fields included).
+func c12StructFieldTypes(x *X, dir, name string) []string {
+	var out []string
+	for _, f := range x.files(dir) {
+		for _, d := range f.Decls {
+			gd, ok := d.(*ast.GenDecl)
+			if !ok {
+				continue
+			}
+			for _, sp := range gd.Specs {
+				ts, ok := sp.(*ast.TypeSpec)
+				if !ok || ts.Name.Name != name {
+					continue
+				}
+				st, ok := ts.Type.(*ast.StructType)
+				if !ok {
+					out = append(out, "(not a struct) "+x.src(ts.Type))
+					continue
+				}
+				for _, fl := range st.Fields.List {
+					out = append(out, x.src(fl.Type))
 				}
 			}
 		}
-		x.defStr("denyAllBody", denyAll)
-		return nil
-	})
+	}
+	return out
 }
